@@ -18,4 +18,10 @@ theorem text_pins_more :
     Gen.fullm_methods = "if cand is not None: polar_cand = size_filter(make_polar(np.array(cand)), min_delta=self.min_delta, max_delta=self.max_delta) candidate_methods = [listed, guess] else: polar_cand = None candidate_methods = [guess]" ∧
     Gen.do_match_body = "match_list = [] ; for i in range(len(polar_vectors)): for j in range(i + 1, len(polar_vectors)): a = polar_vectors[i] b = polar_vectors[j] if not angle_check(np.array([a]), np.array([b]), self.min_angle): continue if a[0] > b[0]: bb = a aa = b else: aa = a bb = b aa, bb = make_cartesian(np.array([aa, bb])) try: match = self._match_all(point_selection=point_selection, zero=zero, a=aa, b=bb) match = self._tumble(point_selection, match) except np.linalg.LinAlgError: continue if match is not None: match_list.append(match) ; return match_list" := ⟨rfl, rfl, rfl, rfl⟩
 
+/-- the figure of merit that ranks the candidate matches (`Model.fomWritten`) -/
+theorem text_pins_fom :
+    Gen.fom_body = "na = np.linalg.norm(m.a) ; nb = np.linalg.norm(m.b) ; res = np.sum(m.peak_elevations) ** 2 ; res *= np.abs(m.a[0] * m.b[1] - m.a[1] * m.b[0]) / (na * nb) ; res *= na * nb / (na ** 2 + nb ** 2) ; return res" := by
+  rfl
+
+
 end C12
